@@ -29,7 +29,8 @@ def main():
     os.makedirs(dst, exist_ok=True)
     rc, diff = sh("git diff", cwd=wt)
     open(os.path.join(dst, "patch.diff"), "w").write(diff)
-    shutil.copy(os.path.join(out, "demo.py"), os.path.join(dst, "demo.py"))
+    if os.path.abspath(out) != os.path.abspath(dst):
+        shutil.copy(os.path.join(out, "demo.py"), os.path.join(dst, "demo.py"))
     res = {"property": pid, "summary": meta.get("summary"), "needs": meta.get("needs"), "files": meta.get("files"), "ran": {}}
     rc, o = sh("/venv/bin/python -m pytest -q -p no:cacheprovider tests 2>&1 | tail -3", cwd=wt)
     res["ran"]["tests_with_change"] = o.strip().splitlines()[-2:]
